@@ -50,7 +50,7 @@ ASSUMPTIONS = ["the Python models of the operators used in the workload (tree bu
                "generic sub-monitor: the direct form's value is compared structurally with the oracle; the other forms of the same "
                "chain are compared with the direct value by the interpreter's own `==` on nested lists of ints/strings"]
 PLAN = {
-    "quick": {"maxlen": 4, "sample": 0, "fam_cases": 1000, "fam_maxlen": 5, "reassign": 32, "nan": False, "shards": 16},
+    "quick": {"maxlen": 4, "sample": 30000, "fam_cases": 4000, "fam_maxlen": 5, "reassign": 96, "nan": False, "shards": 16},
     "thorough": {"maxlen": 4, "sample": 800_000, "fam_cases": 40_000, "fam_maxlen": 7, "reassign": 1200, "nan": True,
                  "shards": 64},
 }
